@@ -724,3 +724,59 @@ Proof.
       * destruct (nth_error iv i); exact I.
   - destruct (existsb (fun b => b) bad); apply opt_Qeq_refl.
 Qed.
+
+(* ---------------------------------------------------------------- the `const` rules (GENERATED) write nothing new *)
+(* if const: ynew[lo:hi] = ynew[src]  -- with the generated lo, hi, src of the two index-mode rules, every value
+   written equals (==) the value the interpolation already put there, so M does not carry `const`. *)
+From PV Require Import Generated.MaskInterp.
+
+Section ConstRules.
+  Variables (ys : list Q) (mask : list bool).
+  Hypothesis Lm : length mask = length ys.
+  Variables (igood : Z -> Z) (ngood ny : Z).
+
+  Theorem const_left_noop : forall g0 y0 i y,
+    igood 0%Z = Z.of_nat g0 ->
+    nth_error mask g0 = Some false -> nth_error ys g0 = Some y0 ->
+    (forall k, (k < g0)%nat -> nth_error mask k = Some true) ->
+    (mi_idx_left_lo igood ngood ny <= Z.of_nat i < mi_idx_left_hi igood ngood ny)%Z ->
+    nth_error ys i = Some y ->
+    exists v w, nth_error (maskinterp1_model ys mask None) i = Some v /\
+                nth_error (maskinterp1_model ys mask None) (Z.to_nat (mi_idx_left_src igood ngood ny)) = Some w /\ v == w.
+  Proof.
+    intros g0 y0 i y Hg M0 Y0 Hb Hi Ey. unfold mi_idx_left_lo, mi_idx_left_hi, mi_idx_left_src in *.
+    rewrite Hg in *. rewrite Nat2Z.id.
+    assert (Hlt : (i < g0)%nat) by lia.
+    destruct (maskinterp_index_left_end ys mask Lm i g0 y y0 Hlt Ey (Hb i Hlt) M0 Y0 Hb) as (v & Hv & Ev).
+    destruct (maskinterp_unmasked ys mask None g0 y0 I Lm Y0 M0) as (w & Hw & Ew).
+    exists v, w. split; [exact Hv|]. split; [exact Hw|]. rewrite Ev, Ew. reflexivity.
+  Qed.
+
+  Theorem const_right_noop : forall gl yl i y,
+    igood (ngood - 1)%Z = Z.of_nat gl ->
+    nth_error mask gl = Some false -> nth_error ys gl = Some yl ->
+    (forall k, (gl < k)%nat -> nth_error mask k <> Some false) ->
+    (mi_idx_right_lo igood ngood ny <= Z.of_nat i < mi_idx_right_hi igood ngood ny)%Z ->
+    nth_error ys i = Some y ->
+    exists v w, nth_error (maskinterp1_model ys mask None) i = Some v /\
+                nth_error (maskinterp1_model ys mask None) (Z.to_nat (mi_idx_right_src igood ngood ny)) = Some w /\ v == w.
+  Proof.
+    intros gl yl i y Hg Ml Yl Hb Hi Ey. unfold mi_idx_right_lo, mi_idx_right_hi, mi_idx_right_src in *.
+    rewrite Hg in *. rewrite Nat2Z.id.
+    assert (Hlt : (gl < i)%nat) by lia.
+    assert (Em : nth_error mask i = Some true).
+    { assert (i < length mask)%nat by (rewrite Lm; apply nth_error_Some; congruence).
+      destruct (nth_error mask i) as [[|]|] eqn:E; [reflexivity | destruct (Hb i Hlt E) | apply nth_error_None in E; lia]. }
+    destruct (maskinterp_index_right_end ys mask Lm i gl y yl Hlt Ey Em Ml Yl Hb) as (v & Hv & Ev).
+    destruct (maskinterp_unmasked ys mask None gl yl I Lm Yl Ml) as (w & Hw & Ew).
+    exists v, w. split; [exact Hv|]. split; [exact Hw|]. rewrite Ev, Ew. reflexivity.
+  Qed.
+End ConstRules.
+
+(* with xval the same two rules are applied in x-sorted order (through ii) *)
+Lemma const_rules_same : forall igood ngood ny,
+  (mi_x_left_guard igood ngood ny, mi_x_left_lo igood ngood ny, mi_x_left_hi igood ngood ny, mi_x_left_src igood ngood ny,
+   mi_x_right_guard igood ngood ny, mi_x_right_lo igood ngood ny, mi_x_right_hi igood ngood ny, mi_x_right_src igood ngood ny)
+  = (mi_idx_left_guard igood ngood ny, mi_idx_left_lo igood ngood ny, mi_idx_left_hi igood ngood ny, mi_idx_left_src igood ngood ny,
+     mi_idx_right_guard igood ngood ny, mi_idx_right_lo igood ngood ny, mi_idx_right_hi igood ngood ny, mi_idx_right_src igood ngood ny).
+Proof. reflexivity. Qed.
